@@ -339,8 +339,70 @@ func isErrorCtor(v ssa.Value) bool {
 		return true
 	case *ssa.ChangeInterface:
 		return isErrorCtor(x.X)
+	case *ssa.UnOp:
+		// a package-level sentinel: var errX = errors.New(..), never assigned anything else
+		if x.Op == token.MUL {
+			if g, ok := x.X.(*ssa.Global); ok {
+				return sentinelError(g)
+			}
+		}
 	}
 	return false
+}
+
+var sentinelCache = map[*ssa.Global]bool{}
+
+// sentinelError: every store to the package-level variable, anywhere in its
+// package, stores a freshly constructed error (and there is at least one).
+func sentinelError(g *ssa.Global) bool {
+	if v, ok := sentinelCache[g]; ok {
+		return v
+	}
+	sentinelCache[g] = false
+	if g.Pkg == nil {
+		return false
+	}
+	n, ok := 0, true
+	var scan func(f *ssa.Function)
+	scan = func(f *ssa.Function) {
+		if f == nil || f.Blocks == nil {
+			return
+		}
+		instrs(f, func(in ssa.Instruction) {
+			switch y := in.(type) {
+			case *ssa.Store:
+				if y.Addr == ssa.Value(g) {
+					n++
+					if !isErrorCtor(y.Val) {
+						ok = false
+					}
+				}
+			case *ssa.Call:
+				// the address handed to a call: anything may be stored
+				for _, a := range y.Call.Args {
+					if a == ssa.Value(g) {
+						ok = false
+					}
+				}
+			}
+		})
+		for _, an := range f.AnonFuncs {
+			scan(an)
+		}
+	}
+	for _, m := range g.Pkg.Members {
+		switch mm := m.(type) {
+		case *ssa.Function:
+			scan(mm)
+		case *ssa.Type:
+			mset := g.Pkg.Prog.MethodSets.MethodSet(types.NewPointer(mm.Type()))
+			for i := 0; i < mset.Len(); i++ {
+				scan(g.Pkg.Prog.MethodValue(mset.At(i)))
+			}
+		}
+	}
+	sentinelCache[g] = ok && n > 0
+	return ok && n > 0
 }
 
 // isSplitCall: strings.Split(x, sep), or strings.SplitN(x, sep, n) with a
